@@ -595,6 +595,8 @@ class FnTr:
                 if d.get("kind") != "VarDecl":
                     return go(i + 1)
                 nm = d["name"]
+                if d.get("storageClass") in ("static", "extern"):
+                    raise Unsupported("local %s has storage class %s (state shared between calls) in %s" % (nm, d.get("storageClass"), cx.fname))
                 init = [c for c in d.get("inner", []) if isinstance(c, dict) and c.get("kind") not in (None, "FullComment")]
                 if not init:
                     # uninitialised local: bind to 0 so that a read-before-write is visible as a constant
